@@ -28,7 +28,8 @@ class LruClass:
         for m in ("__call__", "cache_info", "cache_clear", "cache_discard", "cache_parameters", "__init__"):
             if m not in self.info.methods:
                 raise AnalysisError(f"{self.short} has no method {m} (anchor moved)")
-        self.call = self.info.methods["__call__"]
+        # the miss path may live in a private coroutine of the class: analyse what __call__ does
+        self.call = ctx.inlined(self.info.methods["__call__"])
         self.hits: Optional[str] = None
         self.misses: Optional[str] = None
         self.maxsize: Optional[str] = None
